@@ -3,7 +3,8 @@
 # and the harness.  Everything is rebuilt from files on disk.
 set -euo pipefail
 export GOFLAGS=-mod=mod GOPROXY=off GOSUMDB=off GOTOOLCHAIN=local
-V=/verif
+V=${VERIF_ROOT:-$(cd "$(dirname "${BASH_SOURCE[0]}")/.." && pwd)}
+export VERIF_ROOT=$V
 mkdir -p $V/build/bin $V/evidence $V/replays
 (cd $V/go/extract && go build -o $V/build/bin/extract .)
 $V/build/bin/extract -repo /repo -out $V/lean/OrasModel/Gen -harness $V/go/harness >/dev/null
